@@ -259,6 +259,14 @@ class IterV:
         return f"IterV({len(self.items) - self.pos} left)"
 
 
+class Empty(Unknown):
+    """ModeEv: a selection that does not contain the generic mode (`X[sel]` with sel false, `np.arange(0)`, an index vector cut by a mask the mode fails).
+    As a value it is unknown (there is no element to speak of); as a selector it selects nothing; its size is 0"""
+
+    def __init__(self, why="empty selection"):
+        super().__init__(why)
+
+
 class Box:
     """a per-mode array of ModeEv: a value with identity (aliases share it)"""
 
@@ -660,6 +668,8 @@ class Ev01(AutoEvaluator):
                 return all(usable(y) or (isinstance(y, F.Rat) and not y.depends_on("call")) for y in x)
             u = unfn(x) if isinstance(x, F.Rat) else None
             return bool(u) and u[0] in ("slice", "tuple")
+        if isinstance(v, Empty):
+            return v             # a module-level empty index vector (`_NOROWS = np.arange(0)`)
         if isinstance(node, ast.Call) and not isinstance(v, FuncV) and not isinstance(v, DictV):
             return None          # an arbitrary module-level call is not evaluated
         return v if usable(v) else None
@@ -721,7 +731,33 @@ class Ev01(AutoEvaluator):
             r = self.inline_call(node, fv.fn.name, fv.fn, scope=fv.scope)
             if r is not NotImplemented:
                 return r
-        return Unknown(f"call of a {fv.kind} value that the evaluator cannot apply")
+        why = f"call of a {fv.kind} value that the evaluator cannot apply"
+        if fv.kind == "closure":
+            # what is not executed is not "unchanged": the closure may store into its arguments and into every array of the scope it was created in
+            self.poison_closure(fv, why + f" (line {getattr(node, 'lineno', '?')})")
+        self.poison_args(node, why)
+        return Unknown(why)
+
+    def poison_closure(self, fv, why):
+        """a nested function that is called but not followed: the arrays it can reach through its free names are not known afterwards"""
+        local = {x.arg for x in fv.fn.args.posonlyargs + fv.fn.args.args + fv.fn.args.kwonlyargs}
+        stored, used = set(), set()
+        for n in ast.walk(fv.fn):
+            if isinstance(n, ast.Name) and n.id not in local:
+                used.add(n.id)
+            if isinstance(n, (ast.Subscript, ast.Attribute)) and isinstance(n.ctx, ast.Store):
+                r = n
+                while isinstance(r, (ast.Subscript, ast.Attribute)):
+                    r = r.value
+                if isinstance(r, ast.Name) and r.id not in local:
+                    stored.add(r.id)
+        scope = fv.scope if isinstance(fv.scope, dict) else {}
+        for nm in sorted(used):
+            v = scope.get(nm)
+            if has_ref(v) and not isinstance(v, FuncV):
+                self.poison(v, None, why, fv.fn)
+            elif nm in stored and nm in scope and nm not in self.pinned:
+                scope[nm] = Unknown(why)
 
     def call_with(self, fnode, values, at):
         """call of the function the expression `fnode` denotes on already evaluated values"""
@@ -923,6 +959,9 @@ class Ev01(AutoEvaluator):
                 if isinstance(e, ast.Name) and not isinstance(e, _Lit) and e.id in self.env and isinstance(self.env[e.id], REFS):
                     return e
                 v = self.evr(e)
+                if isinstance(v, tuple) and v and all(isinstance(x, F.Rat) for x in v) and any((unfn(x) or ("",))[0] == "slice" for x in v):
+                    # a Python tuple of slice objects / np.newaxis held in a name: `as_column = (slice(None), np.newaxis); b[as_column]`
+                    return ast.copy_location(ast.Tuple(elts=[conv(lit(x)) for x in v], ctx=ast.Load()), e)
                 u = unfn(v) if isinstance(v, F.Rat) else None
                 if u and u[0] == "slice" and len(u[1]) == 3 and not any(isinstance(x, str) for x in u[1]):
                     parts = [None if x.equals(NONE) else lit(x) for x in u[1]]
@@ -994,13 +1033,25 @@ class Ev01(AutoEvaluator):
         return self.scalar_subscript(node, base)
 
     def scalar_subscript(self, node, base):
+        # decided on the *value* of the index: only full slices / None / np.newaxis (however the tuple was built) reshape, they select nothing
+        try:
+            ix = self._index_value(node.slice)
+            u = unfn(ix)
+            parts = u[1] if u and u[0] == "tuple" else [ix]
+            full = F.fn("slice", NONE, NONE, NONE)
+            if not any(isinstance(x, str) for x in parts) and any(unsym(x) in ("None", "np.newaxis", "numpy.newaxis") for x in parts) and \
+                    all(unsym(x) in ("None", "np.newaxis", "numpy.newaxis", "Ellipsis") or x.equals(full) for x in parts):
+                return base
+        except Unsupported:
+            pass
         return super()._ev(node)
 
     def is_newaxis_only(self, sl):
         elts = sl.elts if isinstance(sl, ast.Tuple) else [sl]
         seen_none = False
         for e in elts:
-            if (isinstance(e, ast.Constant) and e.value is None) or (isinstance(e, ast.Attribute) and dotted(e) in ("np.newaxis", "numpy.newaxis")):
+            if (isinstance(e, ast.Constant) and e.value is None) or (isinstance(e, ast.Attribute) and dotted(e) in ("np.newaxis", "numpy.newaxis")) \
+                    or (isinstance(e, _Lit) and isinstance(e.v, F.Rat) and unsym(e.v) in ("None", "np.newaxis", "numpy.newaxis")):
                 seen_none = True
             elif is_full_slice(e) or (isinstance(e, ast.Constant) and e.value is Ellipsis):
                 pass
@@ -1158,6 +1209,10 @@ class Ev01(AutoEvaluator):
         if isinstance(st, ast.AnnAssign) and st.value is not None:
             self._assign(st.target, self.evr(st.value), st)
             return
+        if isinstance(st, ast.AugAssign) and isinstance(st.target, (ast.Name, ast.Attribute)) and dotted(st.target) is not None \
+                and isinstance(self.env.get(dotted(st.target)), (Hist, Block, ColRef, Box)):
+            # `x += y` on an array is in place: every other name of the same array sees it
+            return self.aug_in_place(st, self.env[dotted(st.target)])
         if isinstance(st, ast.Return):
             if st.value is None:
                 v = None
@@ -1253,7 +1308,27 @@ class Ev01(AutoEvaluator):
             return
         return super().stmt(st)
 
+    def aug_in_place(self, st, ref):
+        import copy
+        cur = self.plain(ref)
+        load = copy.copy(st.target)
+        load.ctx = ast.Load()
+        x = ast.copy_location(ast.BinOp(left=lit(cur), op=st.op, right=st.value), st)
+        nv = self.ev(ast.fix_missing_locations(x))
+        if isinstance(ref, Box):
+            return self.box_update(st, ref, nv)
+        full = ast.Slice(lower=None, upper=None, step=None)
+        t = ast.copy_location(ast.Subscript(value=load, slice=full, ctx=ast.Store()), st)
+        self._assign(ast.fix_missing_locations(t), nv, st)
+
+    def box_update(self, st, box, nv):
+        box.v = nv
+
     # ---- regions that are not executed: what they store into is not known afterwards (never "unchanged")
+    INPLACE_FIRST = {"np.put", "np.place", "np.putmask", "np.copyto", "np.fill_diagonal", "np.put_along_axis", "numpy.put", "numpy.place", "numpy.putmask",
+                     "numpy.copyto", "numpy.fill_diagonal"}
+    INPLACE_METHODS = {"fill", "sort", "put", "itemset", "resize", "partition", "update", "append", "extend", "setdefault", "pop", "clear", "insert", "remove"}
+
     def skip(self, stmts, why):
         work = list(stmts)
         while work:
@@ -1267,12 +1342,23 @@ class Ev01(AutoEvaluator):
                 tg = [n.target]
             elif isinstance(n, ast.Call):
                 d = dotted(n.func)
-                if d in self.inl or self.callee_value(n.func) is not None:
-                    for a in list(n.args) + [k.value for k in n.keywords]:
-                        if isinstance(a, (ast.Name, ast.Attribute)):
-                            v = self.env.get(dotted(a) or "")
-                            if isinstance(v, (Hist, Block, Box)):
-                                self.poison(v, None, why, n)
+                try:
+                    fvv = self.callee_value(n.func) if isinstance(n.func, (ast.Name, ast.Attribute)) else None
+                except Unsupported:
+                    fvv = None
+                if d in self.inl or fvv is not None:
+                    self.poison_args(n, why)
+                    if fvv is not None and fvv.kind == "closure":
+                        self.poison_closure(fvv, why)
+                elif d in self.INPLACE_FIRST and n.args:
+                    self.poison_expr(n.args[0], why, n)
+                elif d == "setattr" and n.args:
+                    self.poison_expr(n.args[0], why, n, whole=True)
+                elif isinstance(n.func, ast.Attribute) and n.func.attr in self.INPLACE_METHODS:
+                    self.poison_expr(n.func.value, why, n, whole=True)
+                for k in n.keywords:
+                    if k.arg == "out":
+                        self.poison_expr(k.value, why, n)
             while tg:
                 t = tg.pop()
                 if isinstance(t, (ast.Tuple, ast.List)):
@@ -1283,11 +1369,50 @@ class Ev01(AutoEvaluator):
                     nm = dotted(t.value)
                     self.skipped.append((n, why))
                     v = self.env.get(nm)
-                    if isinstance(v, (Hist, Block, Box, DictV)):
+                    if isinstance(v, (Hist, Block, Box, DictV, Cols, ColRef)):
                         self.poison(v, t, why, n)
                     else:
                         self.poison_name(nm, t, why, n)
+                elif isinstance(t, ast.Subscript):
+                    # a store through a computed destination (`co[name][rows] = v`, `tab["F"][pv] = v`, `f(x)[i] = v`)
+                    self.skipped.append((n, why))
+                    self.poison_expr(t.value, why, n, target=t)
+                elif isinstance(t, ast.Attribute):
+                    d_ = dotted(t)
+                    b = self.env.get(dotted(t.value) or "")
+                    if isinstance(b, DictV):
+                        b.d[t.attr] = Unknown(why)
+                    elif d_ is not None and d_ not in self.pinned:
+                        self.env[d_] = Unknown(why)
             work.extend(ast.iter_child_nodes(n))
+
+    def poison_expr(self, node, why, st, target=None, whole=False):
+        """the array / container an expression of a region that is not executed denotes is not known afterwards.  The expression is resolved without
+        being evaluated when it is a name; otherwise it is evaluated for its reference, and when that fails the container at its root is given up"""
+        if isinstance(node, (ast.Name, ast.Attribute)) and dotted(node) is not None:
+            nm = dotted(node)
+            v = self.env.get(nm)
+            if has_ref(v) and not isinstance(v, FuncV):
+                self.poison(v, target, why, st)
+            elif target is not None:
+                self.poison_name(nm, target, why, st)
+            elif nm in self.env and nm not in self.pinned and not isinstance(v, FuncV):
+                self.env[nm] = Unknown(why)
+            return
+        v = None
+        if isinstance(node, ast.Subscript) and not whole:
+            try:
+                v = self.evr(node)
+            except Exception:  # noqa
+                v = None
+        if isinstance(v, (Hist, Block, Box, Cols, ColRef)):
+            self.poison(v, target, why, st)
+            return
+        r = node
+        while isinstance(r, (ast.Subscript, ast.Attribute, ast.Call)):
+            r = r.func if isinstance(r, ast.Call) else r.value
+        if isinstance(r, ast.Name) and r is not node:
+            self.poison_expr(r, why, st, whole=True)
 
     def poison_args(self, node, why):
         """arrays handed to a helper the evaluator could not follow: the helper may have written into them"""
@@ -1301,16 +1426,34 @@ class Ev01(AutoEvaluator):
             else:
                 continue
             for x in (v if isinstance(v, tuple) else (v,)):
-                if isinstance(x, (Hist, Block, Box)):
+                if has_ref(x) and not isinstance(x, (FuncV, IterV)):
                     self.poison(x, None, why, node)
 
-    def poison(self, v, target, why, st):
-        if isinstance(v, (Hist, Block)):
+    def poison(self, v, target, why, st, _seen=None):
+        if isinstance(v, (Hist, Block, Cols, ColRef)):
+            if isinstance(v, (Cols, ColRef)):
+                v = v.block
             H = v if isinstance(v, Hist) else v.hist
             H.poisoned = why
             H.bad.append(("skipped store", why))
         elif isinstance(v, Box):
             v.v = Unknown(why)
+        elif isinstance(v, (DictV, tuple)):
+            # a container: every array it holds by reference, and (dict) every entry
+            _seen = _seen if _seen is not None else set()
+            if id(v) in _seen:
+                return
+            _seen.add(id(v))
+            if isinstance(v, DictV):
+                for k_, x in list(v.d.items()):
+                    if has_ref(x) and not isinstance(x, FuncV):
+                        self.poison(x, None, why, st, _seen)
+                    elif not isinstance(x, FuncV):
+                        v.d[k_] = Unknown(why)
+            else:
+                for x in v:
+                    if has_ref(x) and not isinstance(x, FuncV):
+                        self.poison(x, None, why, st, _seen)
 
     def poison_name(self, nm, target, why, st):
         if nm in self.buffers:
@@ -1344,8 +1487,18 @@ class Ev01(AutoEvaluator):
                     base.block.put(base.col, Unknown(f"store `{ast.unparse(target)[:60]}` into a part of a column view"), st)
                 return
             if isinstance(base, Cols):
-                base.block.hist.bad.append(("store", ast.unparse(target)))
-                base.block.hist.poisoned = f"store `{ast.unparse(target)[:60]}` through a transposed view"
+                # `X.T[i] = column`, `X.T[a:b] = columns`: the transposed view writes the columns of the array
+                sl = target.slice
+                r = self.tuple_index(tuple(base.refs()), sl) if not isinstance(sl, ast.Tuple) else NotImplemented
+                v = self.plain(v)
+                if isinstance(r, ColRef) and not isinstance(v, tuple):
+                    r.block.put(r.col, v, st)
+                elif isinstance(r, tuple) and all(isinstance(x, ColRef) for x in r) and (not isinstance(v, tuple) or len(v) == len(r)):
+                    for k_, x in enumerate(r):
+                        x.block.put(x.col, v[k_] if isinstance(v, tuple) else v, st)
+                else:
+                    base.block.hist.bad.append(("store", ast.unparse(target)))
+                    base.block.hist.poisoned = f"store `{ast.unparse(target)[:60]}` through a transposed view"
                 return
             if isinstance(base, DictV):
                 k = self.key_of(self.evr(target.slice))
@@ -1478,6 +1631,31 @@ class Ev01(AutoEvaluator):
         if d in UFUNC2 and len(args) == 2 and not kws:
             x = ast.copy_location(ast.BinOp(left=args[0], op=UFUNC2[d](), right=args[1]), node)
             return self.evr(ast.fix_missing_locations(x))
+        if d in UFUNC2 and (len(args) == 2 and [k.arg for k in kws] == ["out"] or len(args) == 3 and not kws):
+            # np.multiply(a, b, out=x): the result is written into x (in place) and returned
+            x = ast.copy_location(ast.BinOp(left=args[0], op=UFUNC2[d](), right=args[1]), node)
+            v = self.evr(ast.fix_missing_locations(x))
+            out = kws[0].value if kws else args[2]
+            if isinstance(out, ast.Constant) and out.value is None:
+                return v
+            t = ast.copy_location(ast.Subscript(value=out, slice=ast.Slice(lower=None, upper=None, step=None), ctx=ast.Store()), node)
+            self._assign(ast.fix_missing_locations(t), v, node)
+            return self.evr(out)
+        if isinstance(node.func, ast.Attribute) and node.func.attr == "reshape" and args and not kws:
+            shp = [const_of(self.ev(a)) for a in (args[0].elts if len(args) == 1 and isinstance(args[0], (ast.Tuple, ast.List)) else args)]
+            if shp and all(c is not None and c in (1, -1) for c in shp) and sum(1 for c in shp if c == -1) == 1:
+                return self.evr(node.func.value)          # x.reshape(-1, 1) is x[:, None]: axes added, nothing selected
+        if d in ("np.add.accumulate", "np.cumsum", "numpy.cumsum") and len(args) == 1 and [k.arg for k in kws] == ["axis"] and const_of(self.ev(kws[0].value)) in (1, -1):
+            v = self.plain(self.evr(args[0]))
+            if isinstance(v, tuple) and v and not any(isinstance(x, tuple) for x in v):
+                out = []
+                for x in v:                                # running sum over the samples of a history
+                    if is_unknown(x) or (out and is_unknown(out[-1])):
+                        out.append(x if is_unknown(x) else out[-1])
+                    else:
+                        out.append(need(x) if not out else out[-1] + need(x))
+                return tuple(out)
+            return NotImplemented
         if isinstance(node.func, ast.Attribute) and node.func.attr == "dot" and len(args) == 1 and not kws and d not in ("np.dot", "numpy.dot"):
             x = ast.copy_location(ast.BinOp(left=node.func.value, op=ast.MatMult(), right=args[0]), node)
             return self.evr(ast.fix_missing_locations(x))
@@ -1550,8 +1728,14 @@ class Ev01(AutoEvaluator):
         if (d == "np.column_stack" and len(args) == 1 and not kws) or (d == "np.stack" and len(args) == 1 and [k.arg for k in kws] == ["axis"]
                                                                         and const_of(self.ev(kws[0].value)) in (1, -1)):
             v = self.evr(args[0])
-            if isinstance(v, tuple) and self.nt is not None and len(v) == self.nt:
+            if isinstance(v, tuple) and self.nt is not None and len(v) == self.nt and not any(isinstance(self.plain(x), tuple) for x in v):
                 return tuple(self.plain(x) for x in v)          # columns put side by side: the history of those columns
+            if isinstance(v, tuple) and self.nt is not None and d == "np.column_stack" and any(isinstance(self.plain(x), tuple) for x in v):
+                out = []                                        # single columns and blocks of columns side by side
+                for x in v:
+                    x = self.plain(x)
+                    out.extend(x if isinstance(x, tuple) else (x,))
+                return tuple(out) if not any(isinstance(x, tuple) for x in out) else NotImplemented
             return NotImplemented
         if d in ("SimpleNamespace", "types.SimpleNamespace") and not args:
             return DictV({k.arg: self.ref_of(k.value) for k in kws if k.arg is not None})       # a namespace object: fields by reference
@@ -1678,16 +1862,26 @@ class Ev01(AutoEvaluator):
         deco = {dotted(x) for x in fn.decorator_list}
         if method and "staticmethod" not in deco and params:
             params = params[1:]
-        if a.vararg or a.kwarg or len(node.args) > len(params):
+        if len(node.args) > len(params) and not a.vararg:
             return NotImplemented
         env = {}
         for p_, x in zip(params, node.args):
             env[p_] = self.ref_of(x)
+        if a.vararg:
+            env[a.vararg.arg] = tuple(self.ref_of(x) for x in node.args[len(params):])       # *args: the surplus positional values
         kwonly = [x.arg for x in a.kwonlyargs]
+        extra = {}
         for k in node.keywords:
-            if k.arg not in params and k.arg not in kwonly or k.arg in env:
+            if k.arg in env or k.arg in extra:
                 return NotImplemented
+            if k.arg not in params and k.arg not in kwonly:
+                if not a.kwarg:
+                    return NotImplemented
+                extra[k.arg] = self.ref_of(k.value)                                        # **kwargs: the surplus keywords, a dict with identity
+                continue
             env[k.arg] = self.ref_of(k.value)
+        if a.kwarg:
+            env[a.kwarg.arg] = DictV(extra)
         dflt = dict(zip(params[::-1], (a.defaults or [])[::-1]))
         for p_ in params:
             if p_ not in env:
@@ -1760,6 +1954,9 @@ class ModeEv(Ev01):
         return sub
 
     def ref_of(self, node):
+        if isinstance(node, ast.Name) and not isinstance(node, _Lit) and isinstance(self.env.get(node.id), Unknown) and not isinstance(self.env.get(node.id), Empty) \
+                and node.id not in self.pinned:
+            return self._evr_name_box(node)          # an array whose content is not known: still an object that a helper may fill
         if isinstance(node, ast.Name) and not isinstance(node, _Lit) and isinstance(self.env.get(node.id), F.Rat) and node.id not in self.pinned:
             v = self.env[node.id]
             n = unsym(v)
@@ -1773,6 +1970,47 @@ class ModeEv(Ev01):
                     unfn(v)[0] in ("slice", "tuple")):
                 return Box(v)                         # an array computed in place (`A / 2`, `F.copy()`): a new array with its own identity
         return v
+
+    def stmt(self, st):
+        # one array object under several names: `pc.Fe = Fe = np.exp(...)` (chained targets), `pc.Fe = Fe` / `dest = F` (a bare name on the right) bind
+        # the *same* array, so a later in-place store through one name is seen through the other - whatever the order of binding and filling
+        if isinstance(st, ast.Assign) and not self.done and (len(st.targets) > 1 or (isinstance(st.value, ast.Name) and not isinstance(st.value, _Lit))):
+            if all(isinstance(t, (ast.Name, ast.Attribute)) for t in st.targets):
+                try:
+                    v = self.ref_of(st.value)
+                except Unsupported as e:
+                    v = Unknown(str(e))
+                if v is None:
+                    v = self.evr(st.value)
+                if is_unknown(v) and len(st.targets) > 1:
+                    v = Box(v)          # an array whose content is not known yet (np.empty): still ONE object under all its names
+                for t in st.targets:
+                    self._assign(t, v, st)
+                return
+        return super().stmt(st)
+
+    def box_update(self, st, box, nv):
+        """`x += y` where x is one of several names of a value: in place for an array (all names change), a rebinding for a Python number (only x
+        changes) - the evaluator cannot tell which, so the other names are not known afterwards"""
+        n = [0]
+
+        def scan(v, depth=0):
+            if v is box:
+                n[0] += 1
+            elif isinstance(v, tuple) and depth < 4:
+                for x in v:
+                    scan(x, depth + 1)
+            elif isinstance(v, DictV) and depth < 4:
+                for x in v.d.values():
+                    scan(x, depth + 1)
+        for v in self.env.values():
+            scan(v)
+        if n[0] <= 1:
+            box.v = nv
+            return
+        box.v = Unknown(f"a value bound to several names was updated in place through `{ast.unparse(st)[:60]}`")
+        if isinstance(st.target, ast.Name) and st.target.id not in self.pinned:
+            self.env[st.target.id] = Box(nv)
 
     def unfollowed(self, d, node):
         """a call of a function of the analysed module / class that is not followed: it may fill its array arguments in place"""
@@ -1805,6 +2043,8 @@ class ModeEv(Ev01):
             return self.mask_op({ast.BitAnd: "and", ast.BitOr: "or", ast.BitXor: "xor"}[type(node.op)], self.ev(node.left), self.ev(node.right))
         if isinstance(node, ast.Attribute) and node.attr == "size":
             v = self.ev(node.value)
+            if isinstance(v, Empty):
+                return F.const(0)
             c = const_of(v) if isinstance(v, F.Rat) else None
             if c is not None and c in (0, 1):
                 return v
@@ -1840,6 +2080,8 @@ class ModeEv(Ev01):
         if isinstance(sl, ast.Constant) or isinstance(sl, (ast.Tuple, ast.Slice)):
             return None
         v = self.ev(sl)
+        if isinstance(v, Empty):
+            return 0              # an empty index vector selects nothing
         c = const_of(v) if isinstance(v, F.Rat) else None
         if c is not None and c in (0, 1):
             return int(c)
@@ -1852,7 +2094,7 @@ class ModeEv(Ev01):
         s = self.selector(sl)
         if s is None:
             return base
-        return base if s else Unknown("empty selection")
+        return base if s else Empty()
 
     def scalar_store(self, target, base_unused, v, st, aug):
         try:
@@ -1876,14 +2118,14 @@ class ModeEv(Ev01):
         if s is None or s:
             box.v = v
 
-    def poison(self, v, target, why, st):
+    def poison(self, v, target, why, st, _seen=None):
         if isinstance(v, Box) and target is not None:
             try:
                 if self.selector(target.slice) == 0:
                     return             # the generic mode is not selected by this store
             except Unsupported:
                 pass
-        return super().poison(v, target, why, st)
+        return super().poison(v, target, why, st, _seen)
 
     def poison_name(self, nm, target, why, st):
         try:
@@ -1920,10 +2162,16 @@ class ModeEv(Ev01):
             return self.masked_store(args[0], args[1], args[2], node)
         if d == "np.copyto" and len(args) == 2 and [k.arg for k in node.keywords] == ["where"]:
             return self.masked_store(args[0], node.keywords[0].value, args[1], node)
-        if d in ("np.any", "any") and len(args) == 1:
-            return self.ev(args[0])
+        if d in ("np.any", "any", "np.count_nonzero", "np.size") and len(args) == 1:
+            v = self.ev(args[0])
+            return F.const(0) if isinstance(v, Empty) else v
         if isinstance(node.func, ast.Attribute) and node.func.attr == "any" and not args:
-            return self.ev(node.func.value)
+            v = self.ev(node.func.value)
+            return F.const(0) if isinstance(v, Empty) else v
+        if d in ("np.arange", "np.zeros", "np.empty", "np.ones", "range") and len(args) == 1 and const_of(self.ev(args[0])) == 0:
+            return Empty("an array of length 0")
+        if d in ("np.array", "np.asarray") and args and isinstance(args[0], (ast.List, ast.Tuple)) and not args[0].elts:
+            return Empty("an array of length 0")
         if (d in ("np.all", "all") and len(args) == 1) or (isinstance(node.func, ast.Attribute) and node.func.attr == "all" and not args):
             # the generic mode is one of many: all(x) is false when x fails for it, and open (it depends on the other modes) when x holds for it
             v = self.ev(args[0] if args else node.func.value)
@@ -1967,12 +2215,21 @@ class ModeEv(Ev01):
             return F.fn("abs", need(v))
         if d == "len" and len(args) == 1:
             v = self.evr(args[0])
+            if isinstance(v, Empty):
+                return F.const(0)
             if not isinstance(v, (tuple, DictV)) and as_str(v) is None:
                 return F.sym("<n>")
-        if d in ("np.zeros", "np.zeros_like", "np.empty", "np.empty_like"):
+        if d in ("np.zeros", "np.zeros_like"):
             return F.const(0)
+        if d in ("np.empty", "np.empty_like"):
+            # an array with identity from its creation (helpers that receive it fill *this* object); its content is whatever followed stores put there
+            return Box(Unknown(f"content of an array created by {d} that no followed store has filled for the generic mode"))
         if d in ("np.ones", "np.ones_like"):
             return F.const(1)
+        if d in ("np.full", "np.full_like") and len(args) >= 2:
+            return self.ev(args[1])          # every mode holds the fill value
+        if d in ("np.full", "np.full_like") and len(args) == 1 and any(k.arg == "fill_value" for k in node.keywords):
+            return self.ev(next(k.value for k in node.keywords if k.arg == "fill_value"))
         return super().builtin_call(d, node)
 
 
